@@ -27,8 +27,9 @@ def main():
     dest = VERIF / "seeded" / name
     dest.mkdir(parents=True, exist_ok=True)
     demo = next(wt.glob("demo_*.py"))
-    shutil.copy(wt / "patch.diff", dest / "patch.diff")
-    shutil.copy(demo, dest / demo.name)
+    if wt.resolve() != dest.resolve():
+        shutil.copy(wt / "patch.diff", dest / "patch.diff")
+        shutil.copy(demo, dest / demo.name)
     sv = Path(f"/tmp/sv-{name}")
     sh(f"git -C /repo worktree remove --force {sv}")
     rc, out = sh(f"git -C /repo worktree add --detach {sv} HEAD")
